@@ -9,6 +9,7 @@ import time
 
 _SETUP = False
 CRASHES = []
+LAST_CRASH = []
 TIMEOUT_S = 0.25
 LINGER = {}
 HANG_S = 30.0
@@ -32,7 +33,14 @@ def setup():
   console_output.banner_print = lambda *a, **k: None
   console_output.error_print = lambda *a, **k: None
   console_output.cli_print = lambda *a, **k: None
-  threading.excepthook = lambda a: None if a.exc_type is SystemExit else CRASHES.append(a.exc_type.__name__)
+  def _hook(a):
+    if a.exc_type is SystemExit:
+      return
+    import traceback as _tb
+    fr = _tb.extract_tb(a.exc_traceback)
+    CRASHES.append(a.exc_type.__name__)
+    LAST_CRASH[:] = ['%s:%s:%d:%s' % (a.exc_type.__name__, fr[-1].filename.split('/')[-1], fr[-1].lineno, str(a.exc_value)[:100].replace(' ', '_')) if fr else a.exc_type.__name__]
+  threading.excepthook = _hook
   # phases named in LINGER: the body returns at once, the designated override point "called once _thread_proc has
   # finished" keeps the phase thread alive beyond the phase's deadline - the phase keeps its own result
   orig_finished = phase_executor.PhaseExecutorThread._thread_finished
